@@ -1,7 +1,8 @@
 #!/usr/bin/env python3
 """Regenerates coq/Gen/WriteCore.v : facts about libarchive/archive_write.c the write-core model
 (family writeCore, property C09) takes from the source text: the block-size defaults set by
-archive_write_new and whether archive_write_client_free releases a client that is still open."""
+archive_write_new whether archive_write_client_free releases a client that is still open, and whether
+_archive_write_free closes the filters of a handle in state FATAL."""
 import sys, os, re
 sys.path.insert(0, os.path.dirname(__file__))
 import cdefs
@@ -23,6 +24,12 @@ def generate():
         raise KeyError("archive_write_new no longer sets the block-size defaults literally")
     cfree = func_body(src, "archive_write_client_free")
     closes = bool(re.search(r"client_closer\s*\)", cfree) and re.search(r"free\s*\(\s*state\s*\)", cfree))
+    # _archive_write_free: "if (state != FATAL) r = archive_write_close(); else { r1 = __archive_write_filters_close(a); ... }"
+    wfree = func_body(src, "_archive_write_free")
+    m = re.search(r"if\s*\(\s*a->archive\.state\s*!=\s*ARCHIVE_STATE_FATAL\s*\)\s*r\s*=\s*archive_write_close\s*\([^;]*;\s*(else\b.*?)?/?\*?\s*(?:if\s*\(\s*a->format_free)", wfree, flags=re.S)
+    if not m:
+        raise KeyError("_archive_write_free no longer has the shape 'if (state != FATAL) r = archive_write_close(...)'")
+    ffatal = bool(m.group(1) and re.search(r"r1\s*=\s*__archive_write_filters_close\s*\(\s*a\s*\)\s*;\s*if\s*\(\s*r1\s*<\s*r\s*\)\s*r\s*=\s*r1\s*;", m.group(1)))
     lines = [cdefs.coq_header("translators/gen_writeCore.py", [SRC]),
              "From Coq Require Import ZArith Bool.\n",
              "(* archive_write_new *)",
@@ -30,7 +37,9 @@ def generate():
              "Definition default_bytes_in_last_block : Z := (%s)%%Z." % bibl.group(1),
              "(* archive_write_client_free calls client_closer and frees the filter state when the client",
              "   filter is still open (textual test: the body mentions client_closer and free(state)) *)",
-             "Definition client_free_closes_open_client : bool := %s." % ("true" if closes else "false")]
+             "Definition client_free_closes_open_client : bool := %s." % ("true" if closes else "false"),
+             "(* _archive_write_free, state FATAL: else-branch 'r1 = __archive_write_filters_close(a); if (r1 < r) r = r1;' *)",
+             "Definition free_closes_filters_when_fatal : bool := %s." % ("true" if ffatal else "false")]
     return "\n".join(lines) + "\n"
 
 if __name__ == "__main__":
